@@ -274,16 +274,8 @@ def branch_name(ip, st, a, b, c, d):
 
 
 def exhausted(ip, st):
-    """the loop position of the (single) iteration has reached the length of the iterated sequence on this path"""
-    pos = []
-    lens = []
-    for f in st.pc:
-        for t in T.subterms(f):
-            if t[0] == 'var' and 'iter.pos@' in t[1] and t not in pos:
-                pos.append(t)
-            if t[0] == 'len' and t not in lens:
-                lens.append(t)
-    return len(pos) == 1 and any(ip.entails(st, le(T.typed(n, 'usize'), pos[0])) for n in lens)
+    """the fold loop was left because its iterator ran out (region.loop_exhausted: by its own test)"""
+    return loop_exhausted(ip, st)
 
 
 def r2_list(ctx):
